@@ -20,7 +20,13 @@ def defFree (env : SEnv) : Prop :=
 /-! ## the generated names can be bound -/
 
 theorem pnameOK_defName (k : Nat) : pnameOK (defName k) = true := by
-  unfold pnameOK
+  have hlen : ∀ s : String, s.toList.length = 1 → defName k ≠ s := by
+    intro s hs he
+    have := congrArg (fun x => x.toList.length) he
+    simp only [defName_toList, hs] at this
+    simp at this
+  refine pnameOK_of_base ?_ (hlen "(" (by decide)) (hlen ")" (by decide))
+  unfold pnameOK0
   rw [defName_toList]
   show (!isDigit '.' && '.' != '#') = true
   decide
